@@ -152,7 +152,7 @@ def run(tier, seed, replay=None):
                 hm.restart()
                 continue
             out.count("correspondence", "compared")
-            if H.canon_items(mi) != H.canon_items(H.parse_stdout(c.out)) or rc != c.rc:
+            if not H.same_items(mi, H.parse_stdout(c.out)) or rc != c.rc:
                 out.disagreements.append({"correspondence": "Hook.main <-> bin/dippy-hook", "model": str(H.canon_items(mi)),
                                           "impl": str(H.canon_items(H.parse_stdout(c.out))), **H.describe(c, sc)})
     finally:
